@@ -70,6 +70,7 @@ def case_strategy(draw):
 
 def build(case):
     n, nexp = case['n'], case['nexp']
+    with_ivar_ = case.get('with_ivar', True)
     c0, c1 = case['c0'], case['c1']
     k = np.arange(n, dtype='f8')
     lls, fls, ivs = [], [], []
@@ -91,7 +92,7 @@ def build(case):
         if case['fam'] in ('noisy', 'spike'):
             fl = fl + rng.normal(0, 1, n) / np.sqrt(iv) * 0.7
         if case['fam'] == 'spike':
-            fl[n // 2 + 3 * e] += 60 * sig
+            fl[n // 2 + 3 * e] += (60 if with_ivar_ else 400) * sig      # without an inverse variance the weights come from the sample variance: the spike has to stand out of that
         for a, m in case['zeros']:
             a2 = (a + 7 * e) % n if case['zpattern'] != 'all' and case['zpattern'] != 'ends' else a
             iv[a2:a2 + m] = 0.0
